@@ -191,26 +191,32 @@ for ctx in (CTX.SEQUENTIAL, CTX.CONCURRENT):
 # The IR-level analysis (detect_uninitialized_temporaries) counts every ir.Expression as writing its result on the path it
 # stands on.  The emitted statement must therefore assign the result on EVERY path through it -- for the one expression
 # that is lowered to a control statement (SelectWith in a sequential context -> case) every choice including `others`.
-def assigns_on_every_path(stmt, result):
+def assigns_on_every_path(stmt, result, exhaustive=False):
     if is_node(stmt, VR.VariableAssignment) or is_node(stmt, VR.SignalAssignment):
         return tgt(result)(stmt.fields["target"])
     if is_node(stmt, VR.CodeBlock):
         return any(assigns_on_every_path(s, result) for s in stmt.fields["stmts"])
     if is_node(stmt, VR.CaseWhen):
         d = stmt.fields["default"]
-        return d is not None and assigns_on_every_path(d, result) and all(assigns_on_every_path(b[1], result) for b in stmt.fields["branches"])
+        listed = len(stmt.fields["branches"]) > 0 and all(assigns_on_every_path(b[1], result) for b in stmt.fields["branches"])
+        if exhaustive:
+            # the choices cover every value of the selector: `others` stands for no value (it may be absent, it must not do anything else)
+            return listed and (d is None or assigns_on_every_path(d, result))
+        return d is not None and assigns_on_every_path(d, result) and listed
     if is_node(stmt, VR.If):
         return stmt.fields["orelse"] is not None and assigns_on_every_path(stmt.fields["body"], result) and assigns_on_every_path(stmt.fields["orelse"], result)
     return False
 
 
-def add_total(con, name, build):
+def add_total(con, name, build, exhaustive=False):
+    # exhaustive: an ir.SelectWith WITHOUT default reaches the back end only for choices that cover every value of the selector
+    # (front end: PrepareAst.convert_intrinsic[select:*] and _select_is_exhaustive[*], contracts.c08_select)
     INP = Built([], lambda env: build(), lambda a: "<ir>", lambda a: None)
     SELF = Built([], lambda env: SObj(VA._StmtAssembler), lambda a: "<asm>", lambda a: None)
 
     def spec(sx, self, inp, **kw):
         real = sx.real_args[1]
-        return C.Pred(lambda res: assigns_on_every_path(res, real.fields["_result"]), "the emitted statement assigns the expression's result on every path")
+        return C.Pred(lambda res: assigns_on_every_path(res, real.fields["_result"], exhaustive), "the emitted statement assigns the expression's result on every path")
 
     c = Case(f"definite-assignment:{name},SEQUENTIAL", [SELF, INP], spec, kwargs={"context": Built([], lambda env: CTX.SEQUENTIAL, lambda a: "ctx", lambda a: None)}, props=("C08",))
     c.native = False
@@ -226,7 +232,7 @@ add_total(con, "Boolean", lambda: SObj(ir.Boolean, _arg=M("arg"), _result=M("res
 for with_default in (True, False):
     for n in (1, 2):
         add_total(con, f"SelectWith-{n}-choices{'-default' if with_default else '-nodefault'}",
-                  (lambda n=n, with_default=with_default: SObj(ir.SelectWith, _arg=M("sel"), _branches=[[f"choice{j}", M(f"v{j}")] for j in range(n)], _default=M("dv") if with_default else None, _result=M("res"))))
+                  (lambda n=n, with_default=with_default: SObj(ir.SelectWith, _arg=M("sel"), _branches=[[f"choice{j}", M(f"v{j}")] for j in range(n)], _default=M("dv") if with_default else None, _result=M("res"))), exhaustive=not with_default)
 
 _SELECT_SEQ = '''
 from __future__ import annotations
